@@ -23,15 +23,27 @@ Inductive result (A E : Type) : Type := Ok (a : A) | Err (e : E).
 Arguments Ok {A E} a.
 Arguments Err {A E} e.
 
-(* a connect error (tonic::ConnectError wrapping the connector's io::Error): which invocation of the
-   connector produced it and the reason the environment gave *)
-Record cerr := mkErr { e_attempt : N; e_reason : N }.
+(* the error a connect future (MakeSendRequestService::call) resolves to: which invocation of the
+   connector produced it, the reason the environment gave, and where it arose:
+   [Refused]   the connector itself failed: tonic::ConnectError wrapping the connector's io::Error;
+   [Handshake] the connector returned an io, but hyper's `builder.handshake(io).await` failed
+               (connection.rs): the hyper::Error, wrapped in tonic::ConnectError as well (fix
+               4d59edca; before it the bare hyper::Error reached the caller as UNKNOWN) *)
+Inductive ekind := Refused | Handshake.
+Record cerr := mkErr { e_attempt : N; e_reason : N; e_kind : ekind }.
 
 (* ---------------------------------------------------------------- environment *)
-Inductive reach := Up | Down (reason : N).
+Inductive reach :=
+| Up
+| Down (reason : N)
+| UpDead        (* the transport connects, the peer closes at once: the HTTP/2 handshake fails *)
+| UpGarbage.    (* the transport connects, the handshake (write-only in hyper) passes, the peer
+                   answers with bytes that are not HTTP/2 and closes *)
 Inductive ev :=
 | ConnectFails (reason : N)      (* from now on the connector's attempts are refused with [reason] *)
 | ConnectSucceeds                (* from now on the connector's attempts succeed *)
+| ConnectSucceedsDead            (* from now on the connector succeeds but the peer closes at once *)
+| ConnectSucceedsGarbage         (* from now on the connector succeeds but the peer is not HTTP/2 *)
 | ConnectionDropped.             (* the peer drops the established connection (if any); noticed by
                                     the client's connection task before the next step: quiescence *)
 Inductive step :=
@@ -39,7 +51,10 @@ Inductive step :=
 | EnvRacyDrop (noticed : bool)   (* OUTSIDE the property's quantifier: the peer drops the connection and
                                     the next step happens at once; [noticed] = the runtime ran the
                                     client's connection task first (then it is ConnectionDropped) *)
-| Call.                          (* one call issued on the channel, run to completion *)
+| Calls (k : nat).               (* k calls issued together at a quiescent point: all k requests
+                                    are queued in the tower Buffer before its worker runs, the worker
+                                    serves them in order; then everything runs to completion *)
+Notation Call := (Calls 1).      (* one call issued on the channel, run to completion *)
 
 (* the world the connector lives in: reachability, the connector's latency in Pending polls, and
    the number of times the connector has been invoked *)
@@ -48,13 +63,13 @@ Record world := mkWorld { w_net : reach; w_lat : nat; w_attempts : N }.
 (* hyper connection as seen through SendRequest *)
 Inductive conn :=
 | Alive
-| Severed      (* peer gone, the client's connection task has not run yet (not quiescent) *)
+| Severed      (* peer gone (or answering garbage), the client's connection task has not run yet *)
 | Closed.      (* connection task finished: SendRequest::is_closed() *)
 
 (* the boxed connect future (MakeSendRequestService::call): [Fut d r] answers Pending d times, then
    Ready r; a boxed async block polled after completion panics *)
-Inductive cfut := Fut (d : nat) (r : result unit cerr) | FutDone.
-Definition poll_fut (f : cfut) : option (cfut * poll (result unit cerr)) :=
+Inductive cfut := Fut (d : nat) (r : result conn cerr) | FutDone.
+Definition poll_fut (f : cfut) : option (cfut * poll (result conn cerr)) :=
   match f with
   | FutDone => None
   | Fut (S d) r => Some (Fut d r, Pending)
@@ -84,7 +99,12 @@ Definition new_reconnect (is_lazy : bool) : reconnect := mkRc Idle None false is
 Definition make_service (w : world) : world * cfut :=
   let k := w_attempts w + 1 in
   (mkWorld (w_net w) (w_lat w) k,
-   Fut (w_lat w) (match w_net w with Up => Ok tt | Down r => Err (mkErr k r) end)).
+   Fut (w_lat w) (match w_net w with
+                  | Up => Ok Alive
+                  | Down r => Err (mkErr k r Refused)
+                  | UpDead => Err (mkErr k 0 Handshake)
+                  | UpGarbage => Ok Severed
+                  end)).
 
 Inductive pr :=                    (* result of one Reconnect::poll_ready *)
 | PrPending
@@ -121,9 +141,9 @@ Section Stack.
       | Connecting f =>
           match poll_fut f with
           | None => (rc, w, PrPanic)
-          | Some (f', Ready (Ok _)) =>
+          | Some (f', Ready (Ok c)) =>
               (* state = Connected(service); self.state = state; loop again *)
-              pr_loop fuel' (set_state rc (Connected Alive)) w
+              pr_loop fuel' (set_state rc (Connected c)) w
           | Some (f', Pending) => (set_state rc (Connecting f'), w, PrPending)
           | Some (f', Ready (Err e)) =>
               if negb (rc_hbc rc || rc_lazy rc)
@@ -175,10 +195,10 @@ Section Stack.
   | Panic
   | OutOfFuel.                     (* hang *)
 
-  (* by the next quiescent point a connection on which a request failed is closed *)
-  Definition conn_after_send (c : conn) : conn := match c with Alive => Alive | _ => Closed end.
-  Definition after_send (rc : reconnect) : reconnect :=
-    match rc_state rc with Connected c => set_state rc (Connected (conn_after_send c)) | _ => rc end.
+  (* reaching a quiescent point: the client's connection task has run, a dead connection is closed *)
+  Definition settle_conn (c : conn) : conn := match c with Alive => Alive | _ => Closed end.
+  Definition settle_rc (rc : reconnect) : reconnect :=
+    match rc_state rc with Connected c => set_state rc (Connected (settle_conn c)) | _ => rc end.
   Definition sent_outcome (c : conn) : outcome :=
     match send_request c with SrResponse => Response | SrCanceled => Canceled end.
 
@@ -195,7 +215,7 @@ Section Stack.
         | (rc, w', PrReadyOk) =>
             match call rc with
             | (rc', CoErr e) => (mkChan rc' None, w', ConnectErr e)
-            | (rc', CoSent c) => (mkChan (after_send rc') None, w', sent_outcome c)
+            | (rc', CoSent c) => (mkChan rc' None, w', sent_outcome c)
             | (rc', CoPanic) => (mkChan rc' None, w', Panic)
             end
         | (rc, w', PrReadyErr e) => (mkChan rc (Some e), w', ServiceFailed e)   (* Worker::failed *)
@@ -225,7 +245,7 @@ Section Stack.
   Definition build (is_lazy : bool) (fuel : nat) (w : world) : option chan * world * option ready_out :=
     if is_lazy then (Some (mkChan (new_reconnect true) None), w, None)
     else match ready_oneshot fuel (new_reconnect false) w with
-         | (rc, w', RoOk) => (Some (mkChan rc None), w', Some RoOk)
+         | (rc, w', RoOk) => (Some (mkChan (settle_rc rc) None), w', Some RoOk)
          | (_, w', o) => (None, w', Some o)
          end.
 
@@ -241,11 +261,26 @@ Section Stack.
     match e with
     | ConnectFails r => (ch, set_net w (Down r))
     | ConnectSucceeds => (ch, set_net w Up)
+    | ConnectSucceedsDead => (ch, set_net w UpDead)
+    | ConnectSucceedsGarbage => (ch, set_net w UpGarbage)
     | ConnectionDropped => (drop_conn Closed ch, w)
     end.
 
   (* one record per call: connector invocations before, the outcome, invocations after *)
   Definition call_rec : Type := N * outcome * N.
+
+  (* the worker serves the k queued requests one after the other in ONE poll: no quiescent point
+     in between (a connection that is dying stays usable-looking for all of them) *)
+  Fixpoint serve_batch (fuel : nat) (k : nat) (ch : chan) (w : world) {struct k}
+    : list call_rec * chan * world :=
+    match k with
+    | O => ([], ch, w)
+    | S k' =>
+        let '(ch', w', o) := serve fuel ch w in
+        let '(rs, ch'', w'') := serve_batch fuel k' ch' w' in
+        ((w_attempts w, o, w_attempts w') :: rs, ch'', w'')
+    end.
+  Definition settle (ch : chan) : chan := mkChan (settle_rc (ch_rc ch)) (ch_failed ch).
 
   Fixpoint run_steps (fuel : nat) (h : list step) (ch : chan) (w : world) {struct h}
     : list call_rec * chan * world :=
@@ -253,10 +288,10 @@ Section Stack.
     | [] => ([], ch, w)
     | Env e :: h' => let '(ch', w') := apply_ev e ch w in run_steps fuel h' ch' w'
     | EnvRacyDrop n :: h' => run_steps fuel h' (drop_conn (if n then Closed else Severed) ch) w
-    | Call :: h' =>
-        let '(ch', w', o) := serve fuel ch w in
-        let '(rs, ch'', w'') := run_steps fuel h' ch' w' in
-        ((w_attempts w, o, w_attempts w') :: rs, ch'', w'')
+    | Calls k :: h' =>
+        let '(rs1, ch', w') := serve_batch fuel k ch w in
+        let '(rs2, ch'', w'') := run_steps fuel h' (settle ch') w' in
+        (rs1 ++ rs2, ch'', w'')
     end.
 
   Record run_result := mkRun {
@@ -331,10 +366,16 @@ Definition code_from_error (chain : list elink) : N :=
   match find_status_in_source_chain chain with Some c => c | None => Code_Unknown end.
 
 (* source chains of what a Channel call fails with *)
+Definition chain_of_err (e : cerr) : list elink :=
+  match e_kind e with
+  | Refused => [LOther; LConnectError; LOther]       (* transport::Error > ConnectError > io::Error *)
+  | Handshake => [LOther; LConnectError; LHyper false false None; LOther]
+                                    (* transport::Error > ConnectError > hyper::Error(Io) > io::Error *)
+  end.
 Definition chain_of (o : outcome) : option (list elink) :=
   match o with
-  | ConnectErr _ => Some [LOther; LConnectError; LOther]        (* transport::Error > ConnectError > io::Error *)
-  | ServiceFailed _ => Some [LOther; LOther; LConnectError; LOther]   (* .. > buffer ServiceError > .. *)
+  | ConnectErr e => Some (chain_of_err e)
+  | ServiceFailed e => Some (LOther :: chain_of_err e)          (* .. > buffer ServiceError > .. *)
   | Canceled => Some [LOther; LHyper false true None]
   | WorkerClosed => Some [LStatus Code_Unknown]                 (* Status::unknown built by the generated client *)
   | _ => None
@@ -343,7 +384,12 @@ Definition outcome_code (o : outcome) : option N :=
   match chain_of o with Some c => Some (code_from_error c) | None => None end.
 
 (* ---------------------------------------------------------------- observable *)
-Definition err_tr (code : N) (e : cerr) : tr := tag 1 [Nn code; Nn (e_attempt e); Nn (e_reason e)].
+(* only the connector's own error text carries the attempt number and the reason *)
+Definition err_tr (code : N) (e : cerr) : tr :=
+  match e_kind e with
+  | Refused => tag 1 [Nn code; Nn (e_attempt e); Nn (e_reason e)]
+  | Handshake => tag 1 [Nn code; Nn 0; Nn 0]
+  end.
 Definition outcome_tr (o : outcome) : tr :=
   match o, outcome_code o with
   | Response, _ => tag 0 []
@@ -357,7 +403,7 @@ Definition outcome_tr (o : outcome) : tr :=
 Definition ready_tr (o : ready_out) : tr :=
   match o with
   | RoOk => tag 0 []
-  | RoErr e => err_tr (code_from_error [LOther; LConnectError; LOther]) e
+  | RoErr e => err_tr (code_from_error (chain_of_err e)) e
   | RoHang => tag 2 []
   | RoPanic => tag 3 []
   end.
@@ -396,17 +442,28 @@ Fixpoint net_after (net : reach) (h : list step) : reach :=
   | [] => net
   | Env (ConnectFails r) :: h' => net_after (Down r) h'
   | Env ConnectSucceeds :: h' => net_after Up h'
+  | Env ConnectSucceedsDead :: h' => net_after UpDead h'
+  | Env ConnectSucceedsGarbage :: h' => net_after UpGarbage h'
   | _ :: h' => net_after net h'
   end.
 Fixpoint count_calls (h : list step) : nat :=
   match h with
   | [] => O
-  | Call :: h' => S (count_calls h')
+  | Calls k :: h' => (k + count_calls h')%nat
   | _ :: h' => count_calls h'
   end.
 (* every step is at a quiescent point: no call races with a dying connection *)
 Definition quiescent_step (s : step) : bool := match s with EnvRacyDrop false => false | _ => true end.
 Definition quiescent (h : list step) : bool := forallb quiescent_step h.
+(* the property's alphabet: connects fail (the connector refuses, or the HTTP/2 handshake on the
+   io it returned fails) or succeed, connections are dropped.  A peer that accepts the transport,
+   lets hyper's write-only handshake pass and then kills the connection under the first request is
+   an established connection dropped while a call is in flight: like the racy drop it is outside
+   the quantifier (calls at quiescent points) *)
+Definition plain_net (net : reach) : bool := match net with UpGarbage => false | _ => true end.
+Definition plain_step (s : step) : bool :=
+  match s with Env ConnectSucceedsGarbage => false | _ => true end.
+Definition plain (h : list step) : bool := forallb plain_step h.
 
 Definition rec_outcome (c : call_rec) : outcome := snd (fst c).
 Definition rec_before (c : call_rec) : N := fst (fst c).
@@ -418,8 +475,10 @@ Definition err_ids (rs : list call_rec) : list N :=
 (* ---------------------------------------------------------------- statement vocabulary *)
 (* the drivers are given at least this much fuel (iterations of `loop`, re-polls after Pending) *)
 Definition enough_fuel (lat fuel : nat) : Prop := (lat + 4 <= fuel)%nat.
-(* a channel object exists: lazy channels always, eager ones iff the first connect succeeds *)
-Definition built (is_lazy : bool) (net0 : reach) : Prop := is_lazy = true \/ net0 = Up.
+(* a channel object exists: lazy channels always, eager ones iff the first connect future succeeds
+   (with UpGarbage it does: hyper's client handshake only writes) *)
+Definition built (is_lazy : bool) (net0 : reach) : Prop :=
+  is_lazy = true \/ net0 = Up \/ net0 = UpGarbage.
 (* the connector's invocation count only moves inside calls, by at most one per call *)
 Fixpoint chained (n : N) (rs : list call_rec) (n' : N) : Prop :=
   match rs with
